@@ -140,7 +140,7 @@ impl Prop for C08 {
                 let b = *bcache.entry(q + 1).or_insert_with(|| crash::bounds_at(&rec, q + 1));
                 // Only the rotation-gap class, and only while it is a listed known finding of C05,
                 // is left out: such an image cannot be opened whatever the unlink did.
-                if crash::image_class(&without) == Some("previous-chunk-tail-missing") && gap_known {
+                if crash::image_class(&without, rec.layout.as_ref()) == Some("previous-chunk-tail-missing") && gap_known {
                     skipped_known += 1;
                 } else {
                     evals += 2;
